@@ -120,6 +120,167 @@ def naive_datetimes():
             dtm.datetime(2010, 7, 4, 1, 2, 3, 4567)]
 
 
+# ------------------------------------------------------------------ process environments (the written form of a naive datetime depends on TZ)
+import os as _os
+import time as _time
+
+
+class TZEnv:
+    """a POSIX TZ setting and the harness's own reading of it (no tz database, no libc): std/dst offsets in minutes east of UTC and the
+    two M<month>.<week>.<weekday>/<seconds> rules, each given in the local time in force before the switch"""
+    def __init__(self, tz, std, dst=None, start=None, end=None):
+        self.tz, self.std, self.dst, self.start, self.end = tz, std, dst, start, end
+
+    @staticmethod
+    def _rule_day(y, m, w, wd):
+        first = dtm.date(y, m, 1)
+        day = 1 + (wd - (first.weekday() + 1) % 7) % 7          # POSIX weekday 0 = Sunday
+        day += 7 * (w - 1)
+        while True:
+            try:
+                return dtm.date(y, m, day)
+            except ValueError:
+                day -= 7
+
+    def switches_utc(self, y):
+        (m1, w1, d1, s1), (m2, w2, d2, s2) = self.start, self.end
+        a = dtm.datetime.combine(self._rule_day(y, m1, w1, d1), dtm.time()) + dtm.timedelta(seconds=s1, minutes=-self.std)
+        b = dtm.datetime.combine(self._rule_day(y, m2, w2, d2), dtm.time()) + dtm.timedelta(seconds=s2, minutes=-self.dst)
+        return a, b
+
+    def off_at_utc(self, u):
+        if self.dst is None:
+            return self.std
+        a, b = self.switches_utc(u.year)
+        in_dst = (a <= u < b) if a < b else (u >= a or u < b)
+        return self.dst if in_dst else self.std
+
+    def localize(self, d):
+        """naive local wall-clock time (with its fold) -> the aware datetime it denotes (PEP 495 reading, gap times move across the gap)"""
+        naive = d.replace(tzinfo=None, fold=0)
+        if self.dst is None:
+            return naive.replace(tzinfo=dtm.timezone(dtm.timedelta(minutes=self.std)))
+        cands = sorted({naive - dtm.timedelta(minutes=o) for o in (self.std, self.dst)})
+        valid = [u for u in cands if u + dtm.timedelta(minutes=self.off_at_utc(u)) == naive]
+        if len(valid) == 2:
+            u = valid[d.fold]                      # ambiguous: fold=0 the first occurrence
+        elif valid:
+            u = valid[0]
+        else:
+            u = cands[0] if d.fold else cands[1]   # in the gap
+        o = self.off_at_utc(u)
+        return (u + dtm.timedelta(minutes=o)).replace(tzinfo=dtm.timezone(dtm.timedelta(minutes=o)))
+
+    def own_rule_applies(self, d):
+        # glibc evaluates the M-rules of a POSIX TZ string as of 1970 for every earlier year: before 1971 (and next to the bounds
+        # of the type) "local time" is whatever the platform says
+        return self.dst is None or 1971 <= d.year <= 9998
+
+
+class RuleTZ(dtm.tzinfo):
+    """an aware-datetime zone with DST (what zoneinfo gives): utcoffset depends on the date"""
+    def __init__(self, env):
+        self.env = env
+
+    def utcoffset(self, d):
+        if d is None:
+            return None
+        return self.env.localize(d.replace(tzinfo=None)).utcoffset()
+
+    def dst(self, d):
+        return None if d is None else self.utcoffset(d) - dtm.timedelta(minutes=self.env.std)
+
+    def tzname(self, d):
+        return "RULE"
+
+
+H = 3600
+ENVS = [
+    TZEnv("UTC", 0),
+    TZEnv("<+0530>-5:30", 330),
+    TZEnv("<-03>3", -180),
+    TZEnv("CET-1CEST,M3.5.0,M10.5.0/3", 60, 120, (3, 5, 0, 2 * H), (10, 5, 0, 3 * H)),
+    TZEnv("EST5EDT,M3.2.0,M11.1.0", -300, -240, (3, 2, 0, 2 * H), (11, 1, 0, 2 * H)),
+    TZEnv("AEST-10AEDT,M10.1.0,M4.1.0/3", 600, 660, (10, 1, 0, 2 * H), (4, 1, 0, 3 * H)),
+    TZEnv("<+1030>-10:30<+11>-11,M10.1.0,M4.1.0", 630, 660, (10, 1, 0, 2 * H), (4, 1, 0, 2 * H)),
+]
+CUR_ENV = [ENVS[0]]
+
+
+class use_env:
+    """run a block under another TZ (the harness itself runs under TZ=UTC) and restore the previous one afterwards"""
+    def __init__(self, env):
+        self.env = env
+
+    def __enter__(self):
+        self.old_tz, self.old_env = _os.environ.get("TZ"), CUR_ENV[0]
+        _os.environ["TZ"] = self.env.tz
+        _time.tzset()
+        CUR_ENV[0] = self.env
+        return self.env
+
+    def __exit__(self, *a):
+        if self.old_tz is None:
+            _os.environ.pop("TZ", None)
+        else:
+            _os.environ["TZ"] = self.old_tz
+        _time.tzset()
+        CUR_ENV[0] = self.old_env
+
+
+def expected_aware(v: dtm.datetime) -> dtm.datetime:
+    """the aware datetime a valid datetime value denotes in the current environment"""
+    if v.tzinfo is not None and v.utcoffset() is not None:
+        return v
+    env = CUR_ENV[0]
+    if env.own_rule_applies(v):
+        return env.localize(v)
+    return v.astimezone()          # stdlib reading of the platform's local time (no capellambse code)
+
+
+def env_datetimes(env, rng, n_random: int):
+    """naive datetimes for one environment: both seasons, the switch instants (gap and fold, both folds), far past/future, random"""
+    out = []
+    years = [2, 1000, 1582, 1900, 1969, 1970, 1971, 2000, 2024, 2037, 2038, 2500, 9998]
+    for y in years:
+        out += [dtm.datetime(y, 1, 15, 12, 0, 0), dtm.datetime(y, 7, 15, 12, 0, 0, 999999), dtm.datetime(y, 12, 31, 23, 59, 59, 999500),
+                dtm.datetime(y, 4, 10, 0, 0, 0, 1), dtm.datetime(y, 10, 20, 6, 30)]
+        if env.dst is not None and 1971 <= y <= 9998:
+            a, b = env.switches_utc(y)
+            la, lb = a + dtm.timedelta(minutes=env.std), b + dtm.timedelta(minutes=env.dst)     # local wall clock at the switch
+            jump = dtm.timedelta(minutes=env.dst - env.std)
+            for base in (la, la + jump, lb, lb - jump):
+                for delta in (dtm.timedelta(0), dtm.timedelta(microseconds=-1), dtm.timedelta(milliseconds=-1), dtm.timedelta(microseconds=1),
+                              dtm.timedelta(seconds=1), jump / 2, -jump / 2, dtm.timedelta(minutes=1), dtm.timedelta(hours=-1)):
+                    d = base + delta
+                    out.append(d)
+                    out.append(d.replace(fold=1))
+    for _ in range(n_random):
+        y = rng.choice(years + [rng.randint(2, 9998), rng.randint(1971, 2100)])
+        out.append(dtm.datetime(y, rng.randint(1, 12), rng.randint(1, 28), rng.randint(0, 23), rng.randint(0, 59), rng.randint(0, 59),
+                                rng.choice([0, 1, 999, 1000, 999999, rng.randint(0, 999999)]), fold=rng.choice([0, 0, 1])))
+    return out
+
+
+def aware_rule_datetimes(rng, n_random: int):
+    """aware datetimes in zones with DST (both seasons, around the switches)"""
+    out = []
+    for env in ENVS:
+        if env.dst is None:
+            continue
+        z = RuleTZ(env)
+        for y in (1971, 2024, 9998):
+            a, b = env.switches_utc(y)
+            la, lb = a + dtm.timedelta(minutes=env.std), b + dtm.timedelta(minutes=env.dst)
+            for d in (dtm.datetime(y, 1, 15, 12), dtm.datetime(y, 7, 15, 12, 0, 0, 123456), la - dtm.timedelta(seconds=1), la + dtm.timedelta(hours=1),
+                      lb - dtm.timedelta(hours=2), lb + dtm.timedelta(seconds=1)):
+                out.append(d.replace(tzinfo=z))
+        for _ in range(n_random):
+            out.append(dtm.datetime(rng.randint(1971, 9998), rng.randint(1, 12), rng.randint(1, 28), rng.randint(4, 23), rng.randint(0, 59),
+                                    rng.randint(0, 59), rng.randint(0, 999999), tzinfo=z))
+    return out
+
+
 HTML_VALUES = ["<p>x</p>", "plain text", "a &amp; b", "<p>unclosed", "<b><i>x</b></i>", "x < y & z", "<a xlink:href='u' href=\"v\">l</a>",
                "<p>a</p><p>b</p>", " lead <b>x</b> tail ", "&nbsp;\u00e9 \U0001f600", "<ul><li>1<li>2</ul>", "<!-- c -->t",
                "<p style=\"color: red\">q'\"</p>", "a\r\nb<br>c", "<table><tr><td>1</table>", "</p>stray", "<p>" + "y" * 5000 + "</p>",
@@ -579,6 +740,75 @@ def run(chk: lib.Check):
     cnt("descriptors", desc_cnt)
     chk.samples.append({"pod_case": pod_cases[3] if len(pod_cases) > 3 else None})
 
+    # =================================================================== 2b. datetimes under several process environments
+    # What _to_xml writes for a naive datetime depends on the process's TZ.  Every environment of ENVS (UTC, fixed offsets east and
+    # west, zones with DST on both hemispheres, a 30-minute DST) x naive datetimes in both seasons, at the switch instants (gap and
+    # fold, both folds), far past and far future years, and aware datetimes (fixed offsets and zones with DST): codec directly and
+    # through every DatetimePOD descriptor on a fresh element.  Expected value: the harness's own reading of the TZ rule.
+    dt_rows = [r for r in rows if r[2] == "DatetimePOD" and r[4]]
+    aware_pool = rng.sample(dts, 25) + odd_datetimes() + aware_rule_datetimes(rng, 4 if quick else 60)
+    env_stats: dict[str, dict] = {}
+    ri = 0
+    for env in ENVS:
+        st = env_stats.setdefault(env.tz, {"naive": 0, "naive_dst_season": 0, "naive_std_season": 0, "gap_or_fold": 0, "aware": 0,
+                                           "platform_reference": 0})
+        with use_env(env):
+            platform_bad = None
+            for d in env_datetimes(env, rng, 40 if quick else 1500) + aware_pool:
+                naive = d.tzinfo is None
+                want = trunc_ms(expected_aware(d))
+                if naive and env.own_rule_applies(d):
+                    # the platform's local time must follow the same rule (else the harness's reading of TZ is not the environment's)
+                    plat = d.astimezone()
+                    if dt_fields(plat) != dt_fields(expected_aware(d)) and platform_bad is None:
+                        platform_bad = f"{d.isoformat()} fold={d.fold}: platform {plat.isoformat()}, rule {expected_aware(d).isoformat()}"
+                    off = want.utcoffset()
+                    st["naive_dst_season" if env.dst is not None and off == dtm.timedelta(minutes=env.dst) else "naive_std_season"] += 1
+                    if want.replace(tzinfo=None) != trunc_ms(d.replace(fold=0)) or env.localize(d.replace(fold=1 - d.fold)) != env.localize(d):
+                        st["gap_or_fold"] += 1
+                elif naive:
+                    st["platform_reference"] += 1
+                st["naive" if naive else "aware"] += 1
+                # -- codec
+                try:
+                    txt = P_dt._to_xml(d)
+                    back = P_dt._from_xml(txt)
+                except Exception as e:  # noqa: BLE001
+                    txt, back = f"<{type(e).__name__}: {e}>", None
+                chk.note_case(("dt-env", env.tz, d.isoformat(), d.fold))
+                rep = {"kind": "datetime", "TZ": env.tz, "value": d.isoformat(), "fold": d.fold, "naive": naive, "text": txt,
+                       "expected": want.isoformat(), "read_back": back.isoformat() if back is not None else None}
+                season = ("dst" if env.dst is not None and want.utcoffset() == dtm.timedelta(minutes=env.dst) else "std") if naive else "any"
+                vk = f"datetime:{'naive' if naive else 'aware'}:TZ={env.tz}:{season}-season"     # one finding per class; first failing input in the replay
+                if (back is None or dt_fields(back) != dt_fields(want)
+                        or (whole_minute(want) and re.fullmatch(r"\d{4}-\d\d-\d\dT\d\d:\d\d:\d\d\.\d{3}[+-]\d{4}", txt) is None)):
+                    chk.violation(vk, f"TZ={env.tz}: DatetimePOD writes {d!r} as {txt!r}, which reads back "
+                                  f"{back.isoformat() if back is not None else None}; expected {want.isoformat()}", rep)
+                    continue
+                # -- through a descriptor (cycling through all datetime descriptors), attribute absent / present before
+                if dt_rows and (naive or ri % 3 == 0):
+                    key, name, kind, attr = dt_rows[ri % len(dt_rows)][:4]
+                    cls = resolve(key)
+                    el = etree.Element("e")
+                    if ri % 2:
+                        el.set(attr, "2001-02-03T04:05:06.007+0100")
+                    obj = make(cls, el)
+                    try:
+                        setattr(obj, name, d)
+                        rb = getattr(obj, name)
+                    except Exception as e:  # noqa: BLE001
+                        rb = err_of(e)
+                    if not isinstance(rb, dtm.datetime) or rb.tzinfo is None or dt_fields(rb) != dt_fields(want) or el.get(attr) != txt:
+                        chk.violation(vk, f"TZ={env.tz}: {key.rsplit('.', 1)[1]}.{name} = {d!r} stores "
+                                      f"{el.get(attr)!r} and reads back {rb!r}; expected {want.isoformat()}", dict(rep, cls=key, attribute=name))
+                ri += 1
+            if platform_bad is not None:
+                chk.broken.append(f"assumption: under TZ={env.tz} the platform's local time differs from the harness's reading of the rule: {platform_bad}")
+    if _os.environ.get("TZ") != "UTC" or _time.tzname[0] != "UTC":
+        chk.broken.append("harness: TZ was not restored to UTC after the environment stream")
+    chk.coverage["datetime_environments"] = env_stats
+    cnt("datetime_env_cases", sum(v["naive"] + v["aware"] for v in env_stats.values()))
+
     # =================================================================== 3. linked text
     constraints = list(model.search("Constraint"))
     live = [o for o in model.search("LogicalFunction", "LogicalComponent")][:6]
@@ -668,7 +898,14 @@ def run(chk: lib.Check):
     cnt("linked_texts", len(lt_docs))
 
     # =================================================================== 4. live objects, save and reload
-    with lib.scratch("c07-") as tmp:
+    # the assignments and save() run under a zone with DST, the reload under another environment (what was written carries its offset)
+    import contextlib
+    env4 = rng.choice([e for e in ENVS if e.dst is not None])
+    env4_reload = rng.choice([e for e in ENVS if e is not env4])
+    naive4 = [d for d in env_datetimes(env4, rng, 20) if 1971 <= d.year <= 9998] + naive_datetimes()
+    chk.coverage["live_environment"] = {"assign_and_save": env4.tz, "reload": env4_reload.tz}
+    with lib.scratch("c07-") as tmp, contextlib.ExitStack() as envs:
+        envs.enter_context(use_env(env4))
         mdir = tmp / "m"
         shutil.copytree(lib.REPO / "tests/data/melodymodel/5_2", mdir)
         m1 = capellambse.MelodyModel(str(mdir / "Melody Model Test.aird"))
@@ -685,6 +922,9 @@ def run(chk: lib.Check):
                 created += 2
             for req in list(m1.search("Requirement"))[:3]:
                 req.attributes.create("date", value=rng.choice(dts))
+                req.attributes.create("date", value=dtm.datetime(rng.randint(1971, 2100), 1, rng.randint(1, 28), rng.randint(4, 22), 5, 6, 7000))
+                req.attributes.create("date", value=dtm.datetime(rng.randint(1971, 2100), 7, rng.randint(1, 28), rng.randint(4, 22), 5, 6, 7000))
+                created += 2
                 req.attributes.create("real", value=rng.choice([2.5, math.inf]))
                 req.attributes.create("integer", value=-(10**25))
                 created += 3
@@ -708,7 +948,7 @@ def run(chk: lib.Check):
             2: lambda: rng.choice([True, False]),
             3: lambda: rng.choice([0, 1, -1, 2**63, -10**30, rng.choice(ints)]),
             4: lambda: rng.choice([0.0, -0.0, 1.5, 5e-324, 1.7976931348623157e308, 0.1, math.inf, rand_float(rng), 7]),
-            5: lambda: rng.choice(dts + naive_datetimes()),
+            5: lambda: rng.choice(naive4) if rng.random() < 0.5 else rng.choice(dts),
         }
         plan = []      # (uuid, attr name, xml attr, kind code, value, expected read-back, expected xml text)
         used = set()
@@ -757,6 +997,8 @@ def run(chk: lib.Check):
             except Exception:  # noqa: BLE001
                 pass
         m1.save()
+        envs.close()
+        envs.enter_context(use_env(env4_reload))
         m2 = capellambse.MelodyModel(str(mdir / "Melody Model Test.aird"))
         # raw view of what was written, with a plain parser
         raw: dict[str, etree._Element] = {}
@@ -797,15 +1039,24 @@ def run(chk: lib.Check):
     chk.coverage["rule"] = ("every POD kind x value classes (boundary + seeded random) on fresh elements with the attribute present/absent and "
                             "neighbouring attributes; quick: all Bool/Int/Float/Datetime/Enum/PVMT descriptors + 150 sampled String/HTML "
                             "descriptors, thorough: all rows of the table; every enum member by object and name; live objects of the 5_2 model "
-                            "assigned, saved to a scratch copy, reloaded and compared with a raw lxml parse of the files")
+                            "assigned, saved to a scratch copy, reloaded and compared with a raw lxml parse of the files. Environment "
+                            "stream: the datetime codec and every DatetimePOD descriptor under %d TZ settings (UTC, fixed offsets east/west, "
+                            "DST zones on both hemispheres, a 30-minute DST; os.environ['TZ'] + time.tzset(), restored afterwards) x naive "
+                            "datetimes in both seasons, at the switch instants (gap/fold, both folds, +-1us/1ms/1s), years 2..9998, and aware "
+                            "datetimes with fixed offsets and with DST zones (coverage.datetime_environments); the live save/reload part "
+                            "assigns and saves under a DST zone and reloads under another environment (coverage.live_environment)" % len(ENVS))
     chk.coverage["exhaustive"] = not quick
     chk.assumptions += [
         "CPython float repr round trip, float('*') failing, html.escape: Section hypotheses / stand-ins, sampled each run",
         "lxml: attribute text check (Model/Pods.v cp_ok), attribute order on assignment, HTML repair (idempotence sampled only), "
         "fragments_fromstring (linked text parsed by the harness)",
         "XML attribute-value reader stand-in (attr_read) compared with lxml's parser each run",
-        "datetime.fromisoformat modelled for the one layout _to_xml writes; offsets that are not whole minutes and naive datetimes "
-        "(TZ=UTC) checked on the implementation only",
+        "datetime.fromisoformat modelled for the one layout _to_xml writes; offsets that are not whole minutes checked on the implementation "
+        "only; naive datetimes: the Coq codec is parametric in the localisation function (datetime_naive_roundtrip holds for any), the "
+        "correspondence instantiates it with UTC, the other environments are checked on the implementation against the harness's own "
+        "evaluation of the POSIX TZ rule (cross-checked with the platform's astimezone() each run)",
+        "glibc evaluates the M-rules of a POSIX TZ string as of 1970 for earlier years (no DST before 1970 on the northern hemisphere): for "
+        "naive datetimes before 1971 the reference is the platform's local time (stdlib astimezone), not the harness's rule",
         "CPython's 4300-digit int<->str limit is outside the model (assignment then raises ValueError and changes nothing: checked)",
     ]
 
@@ -882,7 +1133,7 @@ def same_value(kc: int, rb, v, desc, exact: bool = False) -> bool:
     if kc == 5:
         if not isinstance(rb, dtm.datetime) or rb.tzinfo is None:
             return False
-        want = trunc_ms(v if v.tzinfo is not None else v.replace(tzinfo=dtm.timezone.utc))
+        want = trunc_ms(expected_aware(v))       # a naive value means local time in the environment of the assignment
         return dt_fields(rb) == dt_fields(want)
     if kc == 6:
         return rb is (desc.enumcls[v] if isinstance(v, str) else v)
